@@ -300,6 +300,13 @@ func runC12(tier, replay string) {
 				o, err := s.HeadObject(ctx, bn, key, nil)
 				r.Count("dedup_append_rounds", 1)
 				r.Count("dedup_appends_acked", acked)
+				if err == nil && acked > 0 {
+					// the body must really contain every acknowledged copy
+					res := vmodel.Exec(ctx, s, &vmodel.Op{Kind: vmodel.OpGet, Bucket: bn.String(), Key: key.String()})
+					if res.Kind != "" || res.ReadErr != nil || int64(len(res.Body)) != acked*64 || !bytes.Equal(res.Body, bytes.Repeat(body, int(acked))) {
+						r.Violation("identical-body-appends-missing-from-content:"+v.name, fmt.Sprintf("%d identical 64-byte appends acknowledged (reported size %d) but GET returned %d bytes (err %q %v)", acked, o.Size, len(res.Body), res.Kind, res.ReadErr), map[string]any{"variant": v.name, "round": di, "acked": acked, "got": len(res.Body)})
+					}
+				}
 				if err != nil || o.Size != acked*64 {
 					sz := int64(-1)
 					if o != nil {
